@@ -4,8 +4,9 @@ emit('C14', '''C14 — Full mesh from any connected bootstrap; a node never peer
    peers and dials them); that the real nodes perform that step within the announce interval,
    also behind address-filtering NATs, is decided by the executed correspondence over all connected
    bootstrap graphs of 2-4 nodes, sampled 5-node graphs and NAT scenarios (py/props/c14.py).''',
- ['Base','Conn','PeerCrypto','NodeInfo','Node','NodeProofs'],
+ ['Base','Conn','PeerCrypto','NodeInfo','Table','Node','NodeProofs','TrustProofs','NextHopProofs','PcInvariant','AdmissionProofs','SelfProofs'],
  [  ('own_message_rejected','NodeProofs.v','own_message_rejected','a handshake message carrying the node\'s own id is rejected at every stage, by whatever address it arrived (after the fix of F13): object unchanged, no reply'),
+  ('never_peers_with_itself','SelfProofs.v','never_peers_with_itself','WHOLE RUNS: every peer of every reachable node state (any events, times, salts) was admitted by a handshake message carrying ANOTHER node\'s id - a node never peers with itself, through whatever address its own messages come back (every handshake object keeps the node number it was created with: invariant NI through PcInvariant.v; a handshake completes only on a message of another node: success_not_self)'),
   ('own_addresses_adopted','NodeProofs.v','adopt_own_addresses','addresses listed under the node\'s own id are added to its own addresses, nothing is dialled, no peer or pending entry appears'),
  ],
  tail='''
